@@ -307,6 +307,35 @@ void h_ExpandStrSymbol(void) {
 }
 #endif
 
+/* PUSHV / POPV: POPV gives a symbol the value the matching PUSHV saved (last in, first out per stack), whatever the symbol
+ * was set to in between; POPV from an empty stack is an error that changes nothing. */
+#ifdef VERIF_PUSHV
+Boolean ChkSymbName(char const* pSym) { (void)pSym; return True; }
+char* as_strdup(char const* s) { char* d = malloc(16); int i; VASSUME(d != NULL); for (i = 0; i < 15 && s[i]; i++) d[i] = s[i]; d[i] = 0; return d; }
+void h_PUSHV_POPV(void) {
+    static tStrComp sym, stk; static char nm[3], st[2]; long long v1, v2, v3; unsigned long ec; Boolean r;
+    msg_txt[0] = 'm'; msg_txt[1] = 0;
+    nm[0] = 'A'; nm[1] = 'B'; nm[2] = 0; sym.str.p_str = nm; sym.str.capacity = 3; st[0] = 0; stk.str.p_str = st; stk.str.capacity = 2;   /* default stack */
+    g_present[0] = g_present[1] = g_present[2] = 0; g_present[3] = 1;
+    g_node[3].SymWert.Typ = TempInt; g_node[3].SymWert.Relocs = NULL; g_node[3].SymWert.Flags = eSymbolFlag_None;
+    MomSectionHandle = -1; SectionStack = NULL; MomLocHandle = -1; CaseSensitive = True; MakeCrossList = False; FirstStack = NULL;
+    VND(PassNo, int); VND(MaxSymPass, int);
+    VND(v1, i64); VND(v2, i64); VND(v3, i64); VND(g_err_cnt, ulong); VASSUME(g_err_cnt < 1000000); ec = g_err_cnt;
+    g_node[3].SymWert.Contents.Int = v1; r = PushSymbol(&sym, &stk);
+    VPOST(r && FirstStack != NULL, "C13: PUSHV saves the symbol's value");
+    g_node[3].SymWert.Contents.Int = v2; r = PushSymbol(&sym, &stk);
+    g_node[3].SymWert.Contents.Int = v3;
+    r = PopSymbol(&sym, &stk);
+    VPOST(r && g_node[3].SymWert.Typ == TempInt && g_node[3].SymWert.Contents.Int == v2, "C13: POPV restores the value saved by the most recent PUSHV");
+    r = PopSymbol(&sym, &stk);
+    VPOST(r && g_node[3].SymWert.Contents.Int == v1 && FirstStack == NULL, "C13: ... then the one before it (last in, first out); the emptied stack disappears");
+    VPOST(g_err_cnt == ec, "C13: balanced PUSHV/POPV report nothing");
+    r = PopSymbol(&sym, &stk);
+    VPOST(!r && g_err_cnt == ec + 1 && g_err_last == ErrNum_StackEmpty && g_node[3].SymWert.Contents.Int == v1, "C13: POPV from an empty stack is an error and leaves the symbol alone");
+    VREACH("end");
+}
+#endif
+
 /* ---- range check of expression results (C14 / C09: "rejected instead of truncated") ------------
  * The formula parser is replaced by an oracle (goto-instrument --replace-calls
  * EvalStrExpression:verif_EvalStrExpression): it returns an arbitrary integer with arbitrary flags. */
